@@ -196,6 +196,23 @@ def duality(ctx, mech, label, f, xs, rng, rec_kind, rec_bases, cls, sample=None)
                       {'program': label, 'D': D, 'P': P, 'rec': rec_kind, 'first_bad_order': d_bad, 'err_over_majorant': worst,
                        'lhs': np.real(lhs[d_bad]).tolist(), 'rhs': np.real(rhs[d_bad]).tolist()})
         return True
+    # the same sweeps once more while the caller has asked NumPy to raise on division by zero, invalid operations and overflow
+    # (numpy.errstate / numpy.seterr, a common debugging setting): all values of this case are finite and moderate, so completing
+    # is part of "operations for which the library provides a pullback must complete"
+    if all(np.all(np.isfinite(fx.xbar.data)) for fx in cg.independentFunctionList):
+        try:
+            with np.errstate(divide='raise', invalid='raise', over='raise', under='ignore'):
+                cg.pushforward([lay(x) for x in xs])
+                cg.pullback([UTPM(ybar.copy())])
+        except Exception as e:
+            chain = []; e_ = e
+            while e_ is not None and len(chain) < 6:
+                chain.append(e_); e_ = e_.__cause__ or e_.__context__
+            if any(isinstance(c, FloatingPointError) for c in chain) or ' encountered in ' in str(e):
+                ctx.violation(mech + ':floating-point-event-when-caller-asked-numpy-to-raise', {'program': label, 'D': D, 'P': P, 'rec': rec_kind,
+                                                                                                  'error': (str(chain[-1]) or repr(e))[-200:]})
+                return True
+        ctx.ok('completes-under-errstate-raise', ('fpe', label, D))
     ctx.ok(mech, cls, noise=worst, sample=sample)
     return True
 
